@@ -286,6 +286,11 @@ def status_native_only(ctx, st, key, src, ver, dmsgs, nmsgs, detail) -> None:
                 "the native front end rejects the file (%r); the default front end reports the repeated keyword without blocking" % texts[:1],
                 detail)
         return
+    if any("Expected an expression" in t for t in texts) and any(re.search(r"\braise\s*;", l) for l in src_lines(src)):
+        _report(ctx, st, {"class": "native-rejects-bare-raise-before-semicolon"},
+                "`raise ;` (a bare raise followed by a semicolon) is valid Python and accepted by the default front end; the native "
+                "front end rejects the file: %r" % texts[:1], detail)
+        return
     _report(ctx, st, {"class": "blocking-status-differs", "blocked_by": "native"},
             "only the native front end rejects the file with a blocking error: %r" % (texts[:1],), detail)
 
@@ -434,6 +439,8 @@ def _start_mechanisms(line: str, a, b) -> list[str] | None:
         return []
     lo, hi = a[1], b[1]
     if lo > hi:
+        if re.match(r"^[+\-~]\s*$", line[hi:lo]):
+            return ["unary-operator-in-annotation-span"]
         return None
     between = line[lo:hi]
     if line[lo:lo + 1] == "(" and set(between) <= set("( \t"):
@@ -492,6 +499,7 @@ EXPLAIN = {
     "mapping-pattern-rest-column": "`**rest` of a mapping pattern: pattern vs name",
     "quoted-annotation-end-position": "a string-quoted type: the default front end measures the end inside the string",
     "non-ascii-column-units": "the line contains non-ASCII characters before the position (bytes vs characters)",
+    "unary-operator-in-annotation-span": "`x: + 2`: the default front end points at the operand, the native one at the unary expression",
     "chained-boolean-operation-inner-span": "`a and b and c`: the default front end gives the nested `b and c` the span of the whole chain, the native one its own",
 }
 
@@ -536,6 +544,9 @@ def leftover_line(lines, ln, ds, ns, src) -> tuple[dict, str]:
         return {"class": "slice-in-type-note-missing"}, what
     if ns and not ds and all(t == "Invalid type comment or annotation  [valid-type]" for t in nt) and BYTES_IN_INDEX.search(line):
         return {"class": "bytes-literal-as-forward-reference", "root": True}, what + " — a bytes literal used as a forward reference"
+    if len(ds) == len(ns) and ds and all(re.match(r'Name "\w+" is not defined', t) for t in dt) and \
+            all(t == "Invalid type comment or annotation  [valid-type]" for t in nt) and re.search(r"""['"]\w+['"]\s*\[""", line):
+        return {"class": "subscripted-string-annotation-message"}, what + " — a string literal subscripted inside an annotation"
     dunder = re.compile(r'Unexpected keyword argument "(__\w*[A-Za-z0-9])" for ')
     if ds and not ns and all(dunder.search(t) and not dunder.search(t).group(1).endswith("__") for t in dt):
         return {"class": "native-dunder-name-not-positional-only", "root": True}, what
